@@ -94,6 +94,29 @@ def script(rng, kinds, roles, rep):
     return {"members": members, "steps": steps, "watch": 20000, "settle": 10}
 
 
+def park_script(rng, kinds):
+    """"No call deadlocks": an RTCP write is still inside the transport (which does not come back before it is released)
+    while statistics queries, a Bind and traffic run on other goroutines - each of them must return."""
+    members = [{"k": k, "o": {"ivl": 1, "size": 64, "k": 2, "n": 1, "rate": 50_000_000}} for k in kinds]
+    twcc = 7 if ("twcchdr" in kinds or not ({"cc", "ccleaky", "ccslow"} & set(kinds))) else 0
+    other = [{"a": "wait", "ms": 6}, {"a": "getq", "s": 1}, {"a": "getq", "s": 2},
+             {"a": "bindl", "s": 9, "nack": True, "twcc": twcc, "rtx": False, "fec": False},
+             {"a": "wrtp", "s": 1, "w": 2000, "id": 1, "len": 20, "shape": 0, "fail": False},
+             {"a": "rrtp", "s": 2, "w": 700, "id": 1, "len": 20, "shape": 0, "tw": 700, "fail": False},
+             {"a": "rrtcp", "s": 1, "kind": "nack", "nums": [1001], "id": 2, "fail": False},
+             {"a": "getq", "s": 1}, {"a": "parkw", "ms": 0}]
+    steps = [{"a": "bindw"}, {"a": "bindr"},
+             {"a": "bindl", "s": 1, "nack": True, "twcc": twcc, "rtx": False, "fec": True},
+             {"a": "bindm", "s": 2, "nack": True, "twcc": 7, "pli": False},
+             {"a": "statssync", "nums": [1, 2]},
+             {"a": "par", "par": [{"a": "wrtp", "s": 1, "w": 1000, "id": 1, "len": 20, "shape": 0, "fail": False, "rep": 5}]},
+             {"a": "parkw", "ms": 1},
+             {"a": "par", "par": [{"a": "wrtcp", "s": 2, "kind": rng.choice(["sr", "pli", "nack"]), "nums": [5, 6], "id": 1, "fail": False},
+                                  {"a": "seq", "rep": 1, "seq": other}]},
+             {"a": "wait", "ms": 3}, {"a": "close"}]
+    return {"members": members, "steps": steps, "watch": 2500, "settle": 10}
+
+
 def run_batch(ctx, scripts, tag):
     return vlib.run_batch(ctx, tag=tag, scripts=scripts, pkg_rel="", pkgname="interceptor_test",
                           files=["zz_verif_univ_test.go", "common:zz_verif_pkt_test.go.tpl"],
@@ -120,6 +143,8 @@ def run(ctx):
             chosen = rng.sample(key, min(8, len(key))) + chosen[:per_kind - 4]
         for roles in chosen:
             scripts.append(script(rng, kinds, roles, rep))
+    for kinds in [[k] for k in KINDS] + CHAINS:
+        scripts.append(park_script(rng, kinds))
     rng.shuffle(scripts)
     chunk = 40
     for i in range(0, len(scripts), chunk):
